@@ -42,7 +42,7 @@ int lua_type(lua_State *L, int idx) { sval *v = stub_at(L, idx); return v ? v->t
 lua_Integer lua_tointeger(lua_State *L, int idx) {
     sval *v = stub_at(L, idx);
     if (!v) return 0;
-    if (v->tag == LUA_TNUMBER) return (lua_Integer) v->num;
+    if (v->tag == LUA_TNUMBER) return v->isint ? (lua_Integer) v->inum : (lua_Integer) v->num;
     if (v->tag == LUA_TSTRING) return atoll(v->str);
     return 0;
 }
@@ -72,7 +72,7 @@ static void pushv(lua_State *L, int tag, double num, const char *s, void *ud) {
     if (s) { strncpy(v.str, s, sizeof v.str - 1); }
     stub_push(L, v);
 }
-void lua_pushinteger(lua_State *L, lua_Integer n) { pushv(L, LUA_TNUMBER, (double) n, NULL, NULL); }
+void lua_pushinteger(lua_State *L, lua_Integer n) { pushv(L, LUA_TNUMBER, (double) n, NULL, NULL); L->stack[L->top - 1].isint = 1; L->stack[L->top - 1].inum = n; }
 void lua_pushnumber(lua_State *L, lua_Number n) { pushv(L, LUA_TNUMBER, n, NULL, NULL); }
 void lua_pushboolean(lua_State *L, int b) { pushv(L, LUA_TBOOLEAN, b ? 1 : 0, NULL, NULL); }
 const char *lua_pushstring(lua_State *L, const char *s) { if (!s) { pushv(L, LUA_TNIL, 0, NULL, NULL); return NULL; } pushv(L, LUA_TSTRING, 0, s, NULL); return s; }
